@@ -7,6 +7,13 @@ from ...spaces import Points
 from ....utils.user_fun import DomainUserFunction
 
 
+def _to_common_dtype(matrix, vectors):
+    """torch.matmul and torch.linalg.solve do not promote dtypes: the rotation matrix
+    (dtype of the parameters) and the points may differ, e.g. float64 parameters."""
+    dtype = torch.promote_types(matrix.dtype, vectors.dtype)
+    return matrix.to(dtype), vectors.to(dtype)
+
+
 class RotationMatrix2D(DomainUserFunction):
     """Given a function :math:`f:\\Omega \\to R` will create the two dimensional
     rotation matrix :math:`(cos(f), -sin(f); sin(f), cos(f))`.
@@ -136,6 +143,7 @@ class Rotate(Domain):
         )
         shifted_points = points[:, list(self.space.keys())].as_tensor - translate_values
         # here apply inverse rotation -> solve: Matrix * x = shifted_points
+        rotation_matrix, shifted_points = _to_common_dtype(rotation_matrix, shifted_points)
         rotated_points = torch.linalg.solve(
             rotation_matrix, shifted_points.unsqueeze(-1)
         )
@@ -163,6 +171,9 @@ class Rotate(Domain):
             -1, self.space.dim, self.space.dim
         )
         translated_points = original_points - translate_values
+        rotation_matrix, translated_points = _to_common_dtype(
+            rotation_matrix, translated_points
+        )
         rotated_points = torch.matmul(rotation_matrix, translated_points.unsqueeze(-1))
         translated_points = rotated_points.squeeze(-1) + translate_values
         return translated_points
@@ -203,6 +214,7 @@ class Rotate(Domain):
             pick_max, domain_bounds[:, None, 1::2], domain_bounds[:, None, ::2]
         )
         corners = corners - translate_values
+        rotation_matrix, corners = _to_common_dtype(rotation_matrix, corners)
         rotated_corners = torch.matmul(rotation_matrix, corners.unsqueeze(-1))
         rotated_corners = rotated_corners.squeeze(-1) + translate_values
         new_bounds = torch.zeros((len(rotated_corners), 2 * dim), device=device)
